@@ -1,6 +1,7 @@
 import Mp.ParseProofs
 import Mp.PoolProofs
 import Mp.ChunkProofs
+import Mp.ParseNoPanic
 /-! C08 — parsing is total: property theorems (proved in Mp.LexProofs / Mp.ParseProofs / Mp.PoolProofs). -/
 #print axioms Mp.scan_progress
 #print axioms Mp.parse_fuel_sufficient
@@ -10,3 +11,5 @@ import Mp.ChunkProofs
 #print axioms Mp.chunk_independent
 #print axioms Mp.same_bytes_same_runes
 #print axioms Mp.sc_next_decodes
+#print axioms Mp.parse_never_panics
+#print axioms Mp.parse_op_or_err
